@@ -51,12 +51,15 @@ def run(tier, seed):
         'collect-six': 'o := {"f": 6, "e": 5, "d": 4, "c": 3, "b": 2, "a": 1, "g": 7}\n{a, ..rest} := o\nprint(rest)\nfor [k, v] in rest {\n    print(k)\n}\n{..all} := rest\nprint(all == rest)\n',
         'print-for-seven': 'o := {}\nfor [i, k] in ["q", "w", "e", "r", "t", "y", "u"] {\n    o[k] = i\n}\nprint(o)\nfor [k, v] in o {\n    print(k)\n}\nprint({o.., "a": 0} == {"a": 0, o..})\n',
         'params-dup': 'fn f({a, b, c}, [a, b, c]) {\n    return 1\n}\n',
+        'function-values': 'fn named() {\n    return 1\n}\nanon := fn () {\n    return 2\n}\nprint(named)\nprint(anon)\nprint(fn (x) {\n    return x\n})\nprint([anon, named, print])\nprint({"f": anon, "t": "s"->len})\nprint(anon)\n',
         'scope-many': 'a := 1\nb := 2\nc := 3\nd := 4\ne := 5\nfn f() {\n    return [a, b, c, d, e]\n}\nprint(f())\nprint(zz)\n',
     }
     for name, src in DET.items():
         def pf(M, src=src):
+            del models.ENVDEP[:]
             try: code, out, err = H.run_cli(M, 't.sd', src.encode())
             except Panic as e: return {'panic': str(e)[:200]}
+            if models.ENVDEP: return {'code': code, 'envdep': sorted(set(models.ENVDEP)), 'path': M.steps}       # an environment value reached the output: every run may differ
             return {'code': code, 'out': H.conc(out).decode('latin1'), 'err': H.conc(err).decode('latin1')}
         rows, st = X.explore(c.M, pf, par=8, timeout=300, tag='det')
         c.states += len(rows); c.transitions += st['steps']; c.obligations += 1
@@ -64,6 +67,7 @@ def run(tier, seed):
         bad = [r for r in rows if r['status'] != 'ok']
         if bad: c.inconclusive.append('determinism/%s: %s %s' % (name, bad[0]['status'], bad[0]['detail'][:200])); continue
         outs_ = {json_key(r['obs']) for r in rows}
+        if any('envdep' in r['obs'] for r in rows): outs_ = outs_ | {'(environment-dependent)'}
         if len(outs_) <= 1: c.discharged += 1; continue
         # native confirmation: repeated runs must show at least two different outcomes
         wd2 = os.path.join(common.TMP, 'c19-det-%d' % os.getpid()); seen = set()
@@ -73,7 +77,7 @@ def run(tier, seed):
         shutil.rmtree(wd2, ignore_errors=True)
         if len(seen) > 1:
             c.replay_ok += 1
-            c.note_violation('hash-order-dependence', 'the outcome of %s depends on hash iteration order: %d different outcomes over the explored orders, e.g. %r; natively %d different outcomes in %d runs' % (name, len(outs_), sorted(outs_)[:2], len(seen), rep + 1), src.encode())
+            c.note_violation('hash-order-dependence' if '(environment-dependent)' not in outs_ else 'environment-dependent-output', 'the outcome of %s depends on hash iteration order or on an environment value: %d different outcomes over the explored orders, e.g. %r; natively %d different outcomes in %d runs' % (name, len(outs_), sorted(outs_)[:2], len(seen), rep + 1), src.encode())
         else:
             c.inconclusive.append('determinism/%s: %d different outcomes over the explored hash orders but 40 native runs agree' % (name, len(outs_)))
     # (b1) environment closure over the MIR
